@@ -1,12 +1,13 @@
 #!/bin/bash
-# usage: run_seeded.sh [id | id:CHECK ...]   -- runs seeded faulty variants against the quick check of the property they break
-# (or of another property when written id:CHECK)
-cd /verif/seeded
-ids=${@:-$(ls)}
+# usage: run_seeded.sh [id | id:CHECK ...]
+# Runs seeded faulty variants against the quick check of the property they break (or of another property when
+# written id:CHECK), with the checks of THIS checkout.
+HERE=$(dirname $(readlink -f $0))/..
+ids=${@:-$(ls $HERE/seeded)}
 for x in $ids; do
   sid=${x%%:*}
   if [[ "$x" == *:* ]]; then prop=${x##*:}; else
-    prop=$(python3 -c "import json;print(json.load(open('/verif/seeded/$sid/meta.json'))['breaks_property'])"); fi
+    prop=$(python3 -c "import json;print(json.load(open('$HERE/seeded/$sid/meta.json'))['breaks_property'])"); fi
   echo "=== $sid vs $prop"
-  /verif/tools/trymut.sh /verif/seeded/$sid/patch.diff $prop | grep -E "^(VIOLATION|DONE|rc=|PATCH|HARNESS)" | cut -c1-260 | head -14
+  $HERE/tools/trymut.sh $HERE/seeded/$sid/patch.diff $prop | grep -E "^(VIOLATION|DONE|rc=|PATCH|HARNESS)" | cut -c1-260 | head -14
 done
